@@ -114,14 +114,15 @@ class _AnyDuck:
 @ob(
     "C02.connect_reports_upper_case",
     encodes=["fakesnow.conn.FakeSnowflakeConnection.__init__ (name folding, SQL it builds from the names)"],
-    bounds="database and schema names: symbolic strings over letters/digits/underscore-like text (any unicode without quotes), |database| <= 2/3, |schema| <= 1/2; the "
+    bounds="database and schema names: symbolic strings over letters/digits/underscore-like text (any unicode without quotes), |database| <= 2, |schema| <= 1 (quick) / 2 (thorough; "
+    "|database| = 3 with |schema| = 2 did not finish in 20 min); the "
     "names reported and the names spliced into the engine SQL are the upper-cased ones; sharded by (|database|, |schema|)",
     timeout=(300, 1200),
-    shards=(2, 6),
+    shards=(2, 4),
 )
 def connect_upper(d: str, s: str) -> bool:
     """
-    pre: 1 <= len(d) <= L - 1 and 1 <= len(s) <= L - 2 and all(ch != QUOTE for ch in d) and all(ch != QUOTE for ch in s)
+    pre: 1 <= len(d) <= 2 and 1 <= len(s) <= L - 2 and all(ch != QUOTE for ch in d) and all(ch != QUOTE for ch in s)
     pre: SHARD < 0 or (len(d) - 1) * (L - 2) + (len(s) - 1) == SHARD
     post: _
     """
